@@ -13,7 +13,53 @@ pub fn vf_sleep(_d: ::std::time::Duration) {
     }
 }
 
+// Contract stand-ins for FutWait::fut_wait and FutWait::send_or_park in the QUEUE-level harnesses
+// (#[kani::stub]); the real functions are proved against exactly these contracts on a FutWait alone
+// (s12w_park_*, s12w_send_or_park_*): fut_wait parks -- returns true -- exactly when the wake-up test is
+// false (re-tested under the list lock); send_or_park parks exactly when every attempt was Full and hands
+// the message back, any other outcome is returned as is.
+pub static mut FWS_CALLS: usize = 0;
+pub static mut FWS_PARKED: usize = 0;
+pub static mut FWS_SEQ: usize = 0;
+pub static mut FWS_AT: usize = 0;
+pub static mut FWS_WC: usize = 0;
+pub static mut SOP_PARKED: usize = 0;
+pub static mut SOP_ATTEMPTS: usize = 0;
+
+pub fn vf_fut_wait_stub(_this: &FutWait, seq: usize, at: &AtomicUsize, wc: &AtomicUsize) -> bool {
+    unsafe {
+        FWS_CALLS += 1;
+        FWS_SEQ = seq;
+        FWS_AT = at as *const AtomicUsize as usize;
+        FWS_WC = wc as *const AtomicUsize as usize;
+        if check(seq, at, wc) {
+            false
+        } else {
+            FWS_PARKED += 1;
+            vf_sleep(::std::time::Duration::from_millis(100));
+            true
+        }
+    }
+}
+
+pub fn vf_send_or_park_stub<T, F: Fn(T) -> Result<(), TrySendError<T>>>(_this: &FutWait, f: F, val: T) -> Result<(), TrySendError<T>> {
+    unsafe {
+        SOP_ATTEMPTS += 1;
+        match f(val) {
+            Err(TrySendError::Full(v)) => {
+                SOP_PARKED += 1;
+                Err(TrySendError::Full(v))
+            }
+            v => v,
+        }
+    }
+}
+
 unsafe fn fut_reset() {
+    FWS_CALLS = 0;
+    FWS_PARKED = 0;
+    SOP_PARKED = 0;
+    SOP_ATTEMPTS = 0;
     ftask::CURRENT_ID = 1;
     ftask::CURRENT_CALLS = 0;
     ftask::NOTIFIED = [0; 8];
@@ -95,7 +141,7 @@ pub unsafe fn s_fut_start_send<RW: QueueRW<Pay>>(n: usize, k: usize, mpmc: bool,
         Err(SendError(back)) => {
             assert!(a0.k == 0, "C13/C15: the sink reports an error only when every receiver is gone");
             assert!(back.ser == pser && back.val == v && back.is_live(), "C13: the message is handed back intact in the error");
-            assert!(parked_has(&prod, 1) == 0, "C13: a failed send must not leave the task parked");
+            assert!(SOP_PARKED == 0, "C13: a failed send must not leave the task parked");
             assert!(a1.head == a0.head && same_except_slot(&a0, &a1, usize::MAX));
             mem::forget(back);
         }
@@ -104,7 +150,7 @@ pub unsafe fn s_fut_start_send<RW: QueueRW<Pay>>(n: usize, k: usize, mpmc: bool,
             assert!(a0.full(), "C15/C03: NotReady although fewer than N values are outstanding");
             assert!(back.ser == pser && back.val == v && back.is_live(), "C15: NotReady must return the identical message");
             assert!(a1.head == a0.head && same_except_slot(&a0, &a1, usize::MAX), "C15: NotReady exactly when nothing was enqueued");
-            assert!(parked_has(&prod, 1) >= 1, "C14: a sender that got NotReady is parked on the producer list");
+            assert!(SOP_PARKED >= 1, "C14: a sender that got NotReady is parked on the producer list");
             assert!(pay::DROPS == drops0);
             mem::forget(back);
         }
@@ -112,7 +158,7 @@ pub unsafe fn s_fut_start_send<RW: QueueRW<Pay>>(n: usize, k: usize, mpmc: bool,
             assert!(a0.k > 0, "C13: send accepted although no receiver is left");
             post_send::<RW>(&a0, &a1, Ok(()), v, pser, drops0, clones0, mpmc);
             assert!(rt::WATCH_HITS[2] == 1 && notified_after_change(0), "C14: the consumer wait list is notified after the value was published");
-            assert!(parked_has(&prod, 1) == 0, "C14: an accepted send leaves no stale parked entry for this task");
+            assert!(SOP_PARKED == 0, "C14: an accepted send leaves no stale parked entry for this task");
         }
     }
     let _ = (cp, pp);
@@ -238,10 +284,11 @@ pub unsafe fn s_fut_recv<RW: QueueRW<Pay>>(n: usize, k: usize, mpmc: bool, sf: u
         assert!(pending && got.is_none() && !ended, "C15: drained with a live sender: NotReady / Empty, never the end");
         assert!(a1.pos[i] == cur);
         if kind == PollKind::Shared || kind == PollKind::Uni {
-            assert!(parked_has(&cons, 1) >= 1, "C14: a stream that got NotReady is parked on the consumer list");
+            assert!(FWS_PARKED >= 1, "C14: a stream that got NotReady is parked on the consumer list");
+            assert!(FWS_SEQ == cur && FWS_AT == &(*w.q.data.add(slot)).wraps as *const AtomicUsize as usize && FWS_WC == &w.q.writers as *const AtomicUsize as usize, "C08/C14: the task parks on the tag cell of the slot where its cursor's value will be published");
             let _ = (cp, pp);
         } else {
-            assert!(parked_has(&cons, 1) == 0 && rt::SLEEPS == 0, "C18: the direct try_recv never parks or sleeps");
+            assert!(FWS_CALLS == 0 && rt::SLEEPS == 0, "C18: the direct try_recv never parks or sleeps");
         }
     }
     if uni {
